@@ -705,10 +705,20 @@ impl<R: Read + Seek> LogIterator<R> {
             }
         };
         let buffer_start_sz = self.buffer.len();
-        let buffer_new_sz = buffer_start_sz + header.size as usize;
-        self.buffer.resize(buffer_new_sz, 0);
-        let buffer = &mut self.buffer[buffer_start_sz..];
-        io_result(self.input.read_exact(buffer))?;
+        // The size comes from the file.  Let the buffer grow as the payload arrives rather than
+        // sizing (and zeroing) it up front from a header that may be damaged.
+        let got = io_result(
+            (&mut self.input)
+                .take(header.size)
+                .read_to_end(&mut self.buffer),
+        )?;
+        if got as u64 != header.size {
+            return Err(system_error(std::io::Error::new(
+                ErrorKind::UnexpectedEof,
+                "failed to fill whole buffer",
+            )));
+        }
+        let buffer = &self.buffer[buffer_start_sz..];
         let crc = crc32c::crc32c(buffer);
         if crc != header.crc32c {
             return Err(corruption_crc_checksum_failed(
